@@ -280,3 +280,16 @@ func isErrReturn(rt *ssa.Return) bool {
 	})
 	return w == nil
 }
+
+// innermostCopy looks through DeepCopy(DeepCopy(x)): the object identity that
+// matters (what was copied, what is mutated before the write) is the inner copy.
+func innermostCopy(c *ssa.Call) *ssa.Call {
+	for i := 0; i < 4; i++ {
+		in, ok := engine.ResolveLocal(c.Common().Args[0]).(*ssa.Call)
+		if !ok || !strings.HasSuffix(engine.CallKey(in.Common()), "Unstructured.DeepCopy") {
+			return c
+		}
+		c = in
+	}
+	return c
+}
